@@ -104,6 +104,25 @@ def oracle(ctx, s, ds, qs, case):
         g = lambda x: np.sin(40.0 * x) + 3.0 * x
         g_conv = np.array(pb.v2p(g(P)), dtype=float)
         T = np.array(calc.t_array, dtype=float)
+        # writing the output files must not change what the conversion returns afterwards
+        import os
+        import shutil
+        import tempfile
+        dd = tempfile.mkdtemp(prefix="cijc06-")
+        old = os.getcwd()
+        os.chdir(dd)
+        try:
+            calc.config["output"] = {"pressure_base": ["cij", "bm_VRH", "G_VRH", "v", "vs", "vp"], "volume_base": ["p"]}
+            ctx.observe(calc.write_output, _bucket="C06/write-crash", _case=case)
+        finally:
+            os.chdir(old)
+            shutil.rmtree(dd, ignore_errors=True)
+        after = {"volumes": np.array(ctx.observe(lambda: pb.volumes, _bucket="C06/after-write-crash", _case=case), dtype=float),
+                 "p_conv": np.array(ctx.observe(pb.v2p, np.array(vb.pressures, dtype=float), _bucket="C06/after-write-crash", _case=case), dtype=float),
+                 "c": np.array(ctx.observe(lambda: pb.modulus_adiabatic[keys[0]], _bucket="C06/after-write-crash", _case=case), dtype=float)}
+        if (not np.array_equal(after["volumes"], vol_tp) or not np.array_equal(after["p_conv"], p_conv)
+                or not np.array_equal(after["c"], fields["c%d%ds" % keys[0].voigt][1], equal_nan=True)):
+            raise PropertyViolation("C06/changed-by-write", "pressure-base quantities differ after write_output()", case)
     nt = P.shape[0]
     # requested pressure grid
     want_p = (qs["P_MIN"] + qs["DELTA_P"] * np.arange(qs["NTV"])) * refphys.GPA_TO_AU
